@@ -132,6 +132,9 @@ def source_of(ch, idx, K):
     c = ch.consumer
     kc = K + len(ch.adapters)
     ret = "()"
+    if c == "for_each!":
+        body = "konst::iter::for_each!{x in s%s => { ea::<_, %d>(x); }}" % ("".join(", " + x for x in calls), kc)
+        return "pub fn w%d(%s) { %s }\n" % (idx, ", ".join(params), body), pnames, src_ty
     if c == "for_each":
         calls.append("for_each(|x| ea::<_, %d>(x))" % kc)
     elif c in ("all", "any"):
@@ -391,7 +394,7 @@ def reference(ch, V, src_ty, K, V2=None):
     kc = K + len(ch.adapters)
     c_ = ch.consumer
     for p in live:
-        if c_ == "for_each":
+        if c_ in ("for_each", "for_each!"):
             p.events.append(call("ea", kc, p.item))
             finish(p, "back")
         elif c_ == "count":
@@ -470,7 +473,7 @@ def state_vars(ch):
     """abstract state variables in allocation order, with their expected initial value kind"""
     out = []
     c = ch.consumer
-    if c != "for_each":
+    if c not in ("for_each", "for_each!"):
         init = {"all": ("bool", True), "any": ("bool", False), "count": sym.I(0), "fold": ("int", 7, "u32"), "rfold": ("int", 7, "u32")}.get(c, NONE)
         out.append(("RET", init))
     out.append(("ITER", "param:1"))
@@ -883,6 +886,12 @@ def enumerate_chains(ctx):
     for a1, a2 in itertools.product(ADAPTERS, repeat=2):
         for c in trio:
             chains.append(Chain([a1, a2], c))
+    # the for_each! macro (its own entry point into the same machinery)
+    chains.append(Chain([], "for_each!"))
+    for a1 in ADAPTERS + FLATS:
+        chains.append(Chain([a1], "for_each!"))
+        for a2 in ADAPTERS + FLATS:
+            chains.append(Chain([a1, a2], "for_each!"))
     for c in CONSUMERS:
         for f in FLATS:
             chains.append(Chain([f], c))
